@@ -144,15 +144,18 @@ static void xml_case(Rng &r, bool meta) {
   Property &top = root.add("top", "");
   rnd_tree(r, top, 0, meta ? std::string("ab <>&\"'1") : std::string("ab 1._-"));
   std::ostringstream o;
-  o << "C11 xml " << (meta ? 1 : 0);
-  ser(o, top);
-  o << " |";
   std::string file = tmpdir + "/t.xml";
   {
     std::ofstream f(file);
     PropertyIOManipulator iom(PropertyIOManipulator::XML, 0, "");
     f << iom << top;   // Property's operator<< prints the node itself with the manipulator
   }
+  std::string text;
+  { std::ifstream f(file); std::ostringstream b; b << f.rdbuf(); text = b.str(); }
+  // the characters the writer produced go to the driver, which compares them with the model of PrintNodeXML / XmlEscape
+  o << "C11 xml " << (meta ? 1 : 0) << " F " << hexs(text);
+  ser(o, top);
+  o << " |";
   try {
     Property back;
     back.LoadFromXML(file);
